@@ -114,10 +114,6 @@ type loopInfo struct {
 	body    map[int]bool
 	ordinal int
 	pos     token.Pos
-	// dry-run bookkeeping (loop frame rule): frame owning the loop, and the heap keys written in the body through
-	// anything but an object allocated inside the body (Store rooted at an Alloc of the body / of an inlined callee)
-	frame *Frame
-	oldW  map[string]bool
 }
 
 type Enc struct {
@@ -149,10 +145,13 @@ type Enc struct {
 	dynImpl         map[string]bool
 	qbound          []string // names of the quantifier variables whose body is being evaluated
 	dryCache        []dryCached
-	dryLoops        []*loopInfo // loops whose body is being dry-run (outermost first)
-	storeRoot       *ssa.Alloc  // root allocation of the Store being encoded (nil: not a store / unknown root)
-	storeFrame      *Frame
 	recGhost        map[string]bool
+	axiomLines      []axiomLine
+	bseqSeen        map[string]bool
+	writeRef        string          // reference through which the heap write in progress goes ("" = unknown)
+	dryNonLocal     map[string]bool // result of the last loop dry run
+	writeNonLocal   map[string]bool // heap keys written through a reference that was not allocated by this function
+	qscope          [][2]string // quantified variables of the specification expression being evaluated: (symbol, sort)
 }
 
 func newEnc(P *Program, db *SpecDB, ti *TypeInfo) *Enc {
@@ -169,7 +168,25 @@ func (e *Enc) assert(t string) {
 	if t == "true" {
 		return
 	}
+	// facts produced while a specification quantifier is being evaluated (typing facts of loaded values, instance
+	// facts of byte windows, ensures of pure functions) may mention its bound variables: they hold for every value of
+	// them, so they are asserted universally
+	if bs := e.boundIn(t); len(bs) > 0 {
+		e.emit("(assert (forall (" + strings.Join(bs, " ") + ") " + t + "))")
+		return
+	}
 	e.emit("(assert " + t + ")")
+}
+
+// boundIn: binders (as "(name sort)") of the quantified variables in scope that occur in t.
+func (e *Enc) boundIn(t string) []string {
+	var out []string
+	for _, b := range e.qscope {
+		if strings.Contains(t, b[0]) {
+			out = append(out, "("+b[0]+" "+b[1]+")")
+		}
+	}
+	return out
 }
 
 // assertTyping: side facts (typing of loaded values). Produced while a quantifier body is being evaluated they may mention
@@ -224,6 +241,12 @@ func (e *Enc) declFun(name string, args []string, ret string) string {
 	e.declSort(ret)
 	e.declared[name] = "fun"
 	e.emit("(declare-fun " + name + " (" + strings.Join(args, " ") + ") " + ret + ")")
+	if name == "strlen" {
+		// lengths are non-negative and only the empty string (the zero value of the string type) has length 0
+		z := e.zero("Str")
+		e.emit("(assert (forall ((s Str)) (! (and (>= (strlen s) 0) (=> (= (strlen s) 0) (= s " + z + "))) :pattern ((strlen s)))))")
+		e.emit("(assert (= (strlen " + z + ") 0))")
+	}
 	return name
 }
 
@@ -234,7 +257,7 @@ func (e *Enc) fresh(hint, sort string) string {
 
 // define introduces a named constant equal to term (keeps formulas small).
 func (e *Enc) define(hint, sort, term string) string {
-	if len(term) < 40 {
+	if len(term) < 40 || len(e.boundIn(term)) > 0 {
 		return term
 	}
 	n := e.fresh(hint, sort)
@@ -305,44 +328,31 @@ func (e *Enc) havocUnknown(st *State) {
 	e.writeLog["*"] = true
 }
 
-// noteLoopWrite: a heap key is written while loop bodies are being dry-run. The write is harmless for a loop's frame
-// (objects that existed when the loop was entered keep their value) iff it is a Store whose address is rooted at an
-// allocation executed inside that loop's body: an Alloc of the loop's function located in the body, or an Alloc of a
-// function inlined (directly or indirectly) from the body.
-func (e *Enc) noteLoopWrite(key string) {
-	for _, li := range e.dryLoops {
-		fresh := false
-		if a := e.storeRoot; a != nil && e.storeFrame != nil && li.frame != nil {
-			// locate the frames of the allocation and of the loop on the current frame chain
-			depthOf := func(fn *ssa.Function, want *Frame) int {
-				d := 0
-				for f := e.storeFrame; f != nil; f = f.parent {
-					if (want != nil && f == want) || (want == nil && f.fn == fn) {
-						return d
-					}
-					d++
-				}
-				return -1
-			}
-			da, dl := depthOf(a.Parent(), nil), depthOf(nil, li.frame)
-			if da >= 0 && dl >= 0 {
-				if da < dl {
-					fresh = true // allocated in a callee inlined from inside the loop body
-				} else if da == dl && a.Block() != nil && li.body[a.Block().Index] {
-					fresh = true
-				}
-			}
+// localRef: the term denotes an object allocated by the function being encoded (allocRef names them ref!...).
+func localRef(t string) bool { return strings.HasPrefix(t, "|ref!") }
+
+// noteWrite records whether the write in progress may touch an object that existed before the function started.
+func (e *Enc) noteWrite(key string) {
+	if !localRef(e.writeRef) {
+		if e.writeNonLocal == nil {
+			e.writeNonLocal = map[string]bool{}
 		}
-		if !fresh {
-			li.oldW[key] = true
-		}
+		e.writeNonLocal[key] = true
 	}
+}
+
+// withRef runs f while heap writes are attributed to the object ref.
+func (e *Enc) withRef(ref string, f func()) {
+	saved := e.writeRef
+	e.writeRef = ref
+	f()
+	e.writeRef = saved
 }
 
 func (e *Enc) heapSet(st *State, key, sort, term string) {
 	e.heapSort[key] = sort
 	e.writeLog[key] = true
-	e.noteLoopWrite(key)
+	e.noteWrite(key)
 	if len(term) > 60 {
 		n := e.fresh(key, sort)
 		e.assert(eq(n, term))
@@ -357,7 +367,7 @@ func (e *Enc) heapHavoc(st *State, key string) {
 		return
 	}
 	e.writeLog[key] = true
-	e.noteLoopWrite(key)
+	e.noteWrite(key)
 	st.heap[key] = e.fresh(key, sort)
 }
 
@@ -425,9 +435,12 @@ func (e *Enc) typeAssume(st *State, lf Leaf, t string) {
 			e.assertTyping("(<= " + t + " " + st.alloc + ")")
 		}
 	case *types.Slice:
-		switch lf.Path {
-		case ".base":
+		switch {
+		case strings.HasSuffix(lf.Path, ".base"):
 			e.assertTyping("(<= " + t + " " + st.alloc + ")")
+		case strings.HasSuffix(lf.Path, ".len"), strings.HasSuffix(lf.Path, ".cap"), strings.HasSuffix(lf.Path, ".off"):
+			// lengths, capacities and offsets are Go ints
+			e.assertTyping("(and (<= 0 " + t + ") (<= " + t + " 9223372036854775807))")
 		}
 	}
 }
@@ -457,7 +470,7 @@ func (e *Enc) storeLoc(st *State, l *Loc, v *Val) {
 		} else {
 			t = "(store " + arr + " " + l.Ref + " " + v.L[i].T + ")"
 		}
-		e.heapSet(st, key, sort, t)
+		e.withRef(l.Ref, func() { e.heapSet(st, key, sort, t) })
 	}
 }
 
@@ -575,6 +588,17 @@ func (e *Enc) strLit(s string) string {
 	if n, ok := e.strLits[s]; ok {
 		return n
 	}
+	if s == "" {
+		// the empty string is the zero value of the string type
+		z := e.zero("Str")
+		e.declFun("strlen", []string{"Str"}, "Int")
+		e.assert("(= (strlen " + z + ") 0)")
+		for _, k := range sortedKeys(e.strLits) {
+			e.assert("(not (= " + z + " " + e.strLits[k] + "))")
+		}
+		e.strLits[s] = z
+		return z
+	}
 	n := sym(fmt.Sprintf("str!%d!%s", len(e.strLits), truncate(s, 24)))
 	e.declConst(n, "Str")
 	e.declFun("strlen", []string{"Str"}, "Int")
@@ -644,7 +668,7 @@ func (e *Enc) globalRef(g *ssa.Global) string {
 	if _, ok := e.declared[n]; !ok {
 		e.declConst(n, "Int")
 		e.assert("(< " + n + " 0)")
-		for other := range e.globalRefs {
+		for _, other := range sortedKeys(e.globalRefs) {
 			if other != k {
 				on := sym("gref!" + other)
 				if _, ok := e.declared[on]; ok {
@@ -733,13 +757,29 @@ func (e *Enc) analyze(fr *Frame) {
 	seen := map[int]bool{}
 	var post []*ssa.BasicBlock
 	var dfs func(b *ssa.BasicBlock)
+	// successors that stay inside a loop containing b are visited LAST, so that (in reverse postorder) a loop's body
+	// precedes the code after the loop: the obligations generated inside the body then do not carry the definitions of
+	// the code that follows the loop in their prefix
+	inLoopWith := func(b, s *ssa.BasicBlock) bool {
+		for _, li := range fr.loops {
+			if li.body[b.Index] && li.body[s.Index] {
+				return true
+			}
+		}
+		return false
+	}
 	dfs = func(b *ssa.BasicBlock) {
 		seen[b.Index] = true
-		for _, s := range b.Succs {
-			if fr.backEdge[[2]int{b.Index, s.Index}] || seen[s.Index] {
-				continue
+		for pass := 0; pass < 2; pass++ {
+			for _, s := range b.Succs {
+				if fr.backEdge[[2]int{b.Index, s.Index}] || seen[s.Index] {
+					continue
+				}
+				if inLoopWith(b, s) != (pass == 1) {
+					continue
+				}
+				dfs(s)
 			}
-			dfs(s)
 		}
 		post = append(post, b)
 	}
@@ -797,7 +837,11 @@ func (e *Enc) mergeStates(hint string, sts []*State, conds []string) *State {
 	if sameHist {
 		n.epoch = sts[0].epoch
 	} else {
-		n.mergeOf = append([]*State(nil), sts...)
+		// snapshots, not the live objects: callers overwrite a state object in place (`*st = *m` after an inlined
+		// call or a deferred call), which would otherwise make a state its own ancestor
+		for _, s := range sts {
+			n.mergeOf = append(n.mergeOf, s.clone())
+		}
 		n.mergeConds = append([]string(nil), conds...)
 	}
 	keys := map[string]bool{}
@@ -861,7 +905,7 @@ func (e *Enc) mergeStates(hint string, sts []*State, conds []string) *State {
 }
 
 func (e *Enc) nameBool(hint, term string) string {
-	if len(term) < 48 {
+	if len(term) < 48 || len(e.boundIn(term)) > 0 {
 		return term
 	}
 	n := e.fresh(hint, "Bool")
